@@ -168,4 +168,23 @@ theorem getChannel1 {v : Vol} {w : VStep} {a k : Nat} {e0 : Nat × List Nat} (ke
             exact hch.symm
 
 
+/-- **get_channel** selecting both of two channel dimensions (no keepdims): the single cell `[]` is cell `[k, l]` -/
+theorem getChannel2_both {v : Vol} {w : VStep} {a b k l : Nat} {e0 e1 : Nat × List Nat}
+    (hs : v.cshape = [a, b]) (hc : v.chans = [e0, e1]) (h : getChannelV v [(0, k), (1, l)] false = .ok w) :
+    k < a ∧ l < b ∧ w.1.geom = v.geom ∧ (∀ j, w.1.arr j [] = v.arr j [k, l]) ∧ w.1.chans = [] ∧ w.1.cshape = [] := by
+  simp only [getChannelV, hs, List.length_cons, List.length_nil] at h
+  split at h
+  · cases h
+  · split at h
+    · cases h
+    · rename_i h1 h2
+      have hk : k < a ∧ l < b := by simpa using h2
+      simp only [Bool.false_eq_true, if_false, Except.ok.injEq] at h
+      subst h
+      refine ⟨hk.1, hk.2, rfl, ?_, ?_, ?_⟩
+      · intro j; simp [expandChan, expandChan.go, List.lookup]
+      · simp [List.range, List.range.loop]
+      · simp [List.range, List.range.loop]
+
+
 end HdVerif.VolLemmas
